@@ -716,3 +716,23 @@ def rule_registry_in_place(ctx, c, rule):
               "the drain filters the registry itself while holding its lock (retain_mut on the locked Vec, not on a copy moved out of it)",
               "receiver list is _%d = SPSC_RXS.lock()" % root, "retain_mut operates on _%d (%s), which is not the SPSC_RXS guard" % (root, fn.locals[root]),
               extra="registry-locked")
+
+
+def rule_stale_isolated(ctx, c, rule):
+    """Each stale span collection is post-processed on its own with a fresh danglings map: the copies of one pushed
+    local-span forest carry the same span ids, so a map shared between them would give one copy all the attachments."""
+    fn = c.fn
+    for b, k, t in c.post_sites():
+        if k != "stale":
+            continue
+        src = c.prov.of_operand(fn, t["args"][0])
+        per_elem = any(v[0] == "call" and re.search(r"Iterator>?::next$", v[1]) for o in src for v in o.via)
+        dsrc = c.prov.of_operand(fn, t["args"][3])
+        news = [v[2] for o in dsrc for v in o.via if v[0] == "call" and re.search(r"HashMap::<K, V>::new$|Default>::default$", v[1])]
+        news += [x for x in fn.calls_re(r"HashMap::<K, V>::new$", cleanup=False) if root_local(fn, t["args"][3])[0] == fn.term(x)["dest"]["l"]]
+        fresh = bool(news) and all(fn.on_cycle(x) for x in news)
+        ctx.check(per_elem and fresh and fn.on_cycle(b), rule, HC, fn.loc(b),
+                  "every stale span collection is converted on its own, with its own fresh danglings map",
+                  "one postprocess call per element, HashMap::new inside the loop",
+                  "per-element: %s, fresh map per element: %s -- with a shared map the first of several identical pushed forests "
+                  "collects every copy's events/properties" % (per_elem, fresh), extra="stale-isolated")
